@@ -39,7 +39,7 @@ func C06(c *core.Ctx) {
 			return 0, 0
 		}}
 		var muts []ssa.Instruction
-		for _, ci := range core.FindCalls(up,
+		for _, ci := range core.FindCallsDeep(up,
 			core.CalleeID{Pkg: "fw/table", Recv: "FibStrategy", Name: "ClearNextHopsEnc"},
 			core.CalleeID{Pkg: "fw/table", Recv: "FibStrategy", Name: "InsertNextHopEnc"},
 			core.CalleeID{Pkg: "fw/table", Recv: "FibStrategy", Name: "RemoveNextHopEnc"}) {
@@ -48,17 +48,17 @@ func C06(c *core.Ctx) {
 			c.Decide(isFieldLoad(a[0], r, "Name"), "R6.1", "fib-mutation-uses-entry-name:"+calleeName(ci), c.Pos(ci), "FIB is addressed by the entry's own name", "FIB mutation addresses a name other than the RIB entry's own")
 		}
 		c.Floor("R6.1", "FIB mutator calls in updateNexthopsEnc", len(muts), 2)
-		res := core.Gate(up, muts, pos(named))
+		res := core.GateDeep(up, muts, pos(named))
 		c.Decide(res.OK && res.PassEdges > 0, "R6.1", "fib-writes-only-for-named-entries", p.Pos(up.Pos()),
 			"ClearNextHopsEnc/InsertNextHopEnc reachable only when the entry has a name",
 			"a name-less filler RIB node can write to the FIB: a nil name addresses the root entry in both FIB implementations, so inherited routes show up as next hops of '/'; path: "+p.PathString(res.Path))
 		// R6.1b: next hops are installed only for entries that hold routes of their own
 		hasRoutes := atomLenFieldPositive("routes", func(b ssa.Value) bool { return core.Strip(b) == r })
 		var inserts []ssa.Instruction
-		for _, ci := range core.FindCalls(up, core.CalleeID{Pkg: "fw/table", Recv: "FibStrategy", Name: "InsertNextHopEnc"}) {
+		for _, ci := range core.FindCallsDeep(up, core.CalleeID{Pkg: "fw/table", Recv: "FibStrategy", Name: "InsertNextHopEnc"}) {
 			inserts = append(inserts, ci)
 		}
-		res = core.Gate(up, inserts, pos(hasRoutes))
+		res = core.GateDeep(up, inserts, pos(hasRoutes))
 		c.Decide(len(inserts) > 0 && res.OK && res.PassEdges > 0, "R6.1", "fib-inserts-only-for-entries-with-routes", p.Pos(up.Pos()),
 			"InsertNextHopEnc reachable only when len(entry.routes) > 0",
 			"an entry without routes of its own gets inherited next hops installed under its name: when that entry is pruned afterwards (last route removed) nothing refreshes the FIB entry again and next hops of later-removed routes remain; path: "+p.PathString(res.Path))
@@ -85,7 +85,7 @@ func C06(c *core.Ctx) {
 		// every return is preceded by a children loop: each Return's block is reached only through a range over r.children
 		core.Instrs(up, func(in ssa.Instruction) {
 			if _, ok := in.(*ssa.Return); ok {
-				hasRange := core.Precedes(up, in, func(x ssa.Instruction) bool {
+				hasRange := core.PrecedesDeep(up, in, func(x ssa.Instruction) bool {
 					rg, ok := x.(*ssa.Range)
 					return ok && isFieldLoad(rg.X, r, "children")
 				})
@@ -132,7 +132,7 @@ func C06(c *core.Ctx) {
 		} else {
 			hdr := cursor.Block()
 			// whole walk is skipped when the entry itself captures
-			res := core.Gate(up, []ssa.Instruction{hdr.Instrs[0]}, neg(selfCap))
+			res := core.GateDeep(up, []ssa.Instruction{hdr.Instrs[0]}, neg(selfCap))
 			c.Decide(res.OK && res.PassEdges > 0, "R6.2", "capture-entry-inherits-nothing", p.Pos(up.Pos()), "the ancestor walk is unreachable when the entry holds a capture route", "an entry holding a capture route still inherits routes from shorter prefixes")
 			// only child-inherit routes are appended inside the walk
 			var apps []ssa.Instruction
@@ -146,7 +146,7 @@ func C06(c *core.Ctx) {
 				}
 			}
 			inh := atomCallTrue("route.HasChildInheritFlag()", callIs(core.CalleeID{Pkg: "fw/table", Recv: "Route", Name: "HasChildInheritFlag"}))
-			res = core.Gate(up, apps, pos(inh))
+			res = core.GateDeep(up, apps, pos(inh))
 			c.Decide(len(apps) > 0 && res.OK && res.PassEdges > 0, "R6.2", "inherit-only-child-inherit-routes", p.Pos(up.Pos()), "ancestor routes are appended only under HasChildInheritFlag()", "routes of shorter prefixes are inherited although they lack the child-inherit flag")
 			// exit on capture of the cursor, after that ancestor's routes were taken
 			curCap := capOf(func(v ssa.Value) bool { return v == ssa.Value(cursor) })
@@ -229,7 +229,7 @@ func C06(c *core.Ctx) {
 				}
 				return 0, 0
 			}}
-			res := core.Gate(up, upd, neg(absent), pos(cheaper))
+			res := core.GateDeep(up, upd, neg(absent), pos(cheaper))
 			c.Decide(res.OK && res.PerLit[0] > 0 && res.PerLit[1] > 0, "R6.3", "min-cost-per-face", c.Pos(upd[0]), "cost recorded only when the face is new or the route is strictly cheaper", "the per-face cost can be overwritten by a route that is not cheaper: the FIB does not hold the minimum cost among contributing routes")
 		}
 	}
@@ -269,7 +269,7 @@ func C06(c *core.Ctx) {
 				}
 			}
 			nMut++
-			fr := core.MustFollow(fn, core.After(in), func(x ssa.Instruction) bool {
+			fr := core.MustFollowDeep(fn, core.After(in), func(x ssa.Instruction) bool {
 				cc, ok := core.IsCall(x, core.CalleeID{Pkg: "fw/table", Recv: "RibEntry", Name: "updateNexthopsEnc"})
 				if !ok {
 					return false
@@ -310,27 +310,27 @@ func C06(c *core.Ctx) {
 				return
 			}
 			// wrapper: forwards its own parameter to the worker on every path
-			for _, wc := range core.FindCalls(sc, core.FuncID(cu)) {
+			for _, wc := range core.FindCallsDeep(sc, core.FuncID(cu)) {
 				_, wa := core.CallArgs(wc.Common())
-				if len(wa) == 1 && wa[0] == ssa.Value(sc.Params[1]) && core.MustFollow(sc, core.Point{Block: sc.Blocks[0], Idx: 0}, func(x ssa.Instruction) bool { return x == ssa.Instruction(wc) }, nil).OK {
+				if len(wa) == 1 && wa[0] == ssa.Value(sc.Params[1]) && core.MustFollowDeep(sc, core.Point{Block: sc.Blocks[0], Idx: 0}, func(x ssa.Instruction) bool { return x == ssa.Instruction(wc) }, nil).OK {
 					call = in
 				}
 			}
 		})
-		ok := call != nil && core.MustFollow(rm, core.Point{Block: rm.Blocks[0], Idx: 0}, func(in ssa.Instruction) bool { return in == call }, nil).OK
+		ok := call != nil && core.MustFollowDeep(rm, core.Point{Block: rm.Blocks[0], Idx: 0}, func(in ssa.Instruction) bool { return in == call }, nil).OK
 		c.Decide(ok, "R6.4", "face-removal-cleans-rib", p.Pos(rm.Pos()), "face.Table.Remove always reaches the RIB cleanup of that face id", "removing a face does not clean its routes out of the RIB")
 	}
 	if cu != nil {
 		c.Funcs[core.FuncName(cu)] = true
 		r := ssa.Value(cu.Params[0])
 		okRec := false
-		for _, ci := range core.FindCalls(cu, core.FuncID(cu)) {
+		for _, ci := range core.FindCallsDeep(cu, core.FuncID(cu)) {
 			rv, a := core.CallArgs(ci.Common())
 			if rangeComponent(rv, 1, func(v ssa.Value) bool { return isFieldLoad(v, r, "children") }) && a[0] == ssa.Value(cu.Params[1]) {
 				h := loopHeader(ci.Block())
 				okRec = h != nil && everyIterationPasses(cu, h, func(x ssa.Instruction) bool { return x == ssa.Instruction(ci) })
 				// the children loop is entered on every path (not behind an early return)
-				okRec = okRec && core.MustFollow(cu, core.Point{Block: cu.Blocks[0], Idx: 0}, func(x ssa.Instruction) bool {
+				okRec = okRec && core.MustFollowDeep(cu, core.Point{Block: cu.Blocks[0], Idx: 0}, func(x ssa.Instruction) bool {
 					rg, ok := x.(*ssa.Range)
 					return ok && isFieldLoad(rg.X, r, "children")
 				}, nil).OK
@@ -398,7 +398,7 @@ func C06(c *core.Ctx) {
 			}
 		})
 		for _, f := range []string{"FaceID", "Origin"} {
-			res := core.Gate(add, eff, pos(keyAtom(f)))
+			res := core.GateDeep(add, eff, pos(keyAtom(f)))
 			c.Decide(len(eff) > 0 && res.OK && res.PassEdges > 0, "R6.4", "route-key:"+f, p.Pos(add.Pos()), "an existing route is updated only when "+f+" matches", "AddEncRoute can overwrite a route whose "+f+" differs from the registered one")
 		}
 	}
